@@ -255,8 +255,10 @@ class Burst(BytesInterface):
 
     @staticmethod
     def from_bytes(
-        data: bytes, burst_type: BurstTypes = BurstTypes.DataAndControl
+        data: bytes, burst_type: BurstTypes = BurstTypes.Undefined
     ) -> "Burst":
+        # same default as the constructor: data / voice sync bursts are detected from the burst centre, a burst without
+        # sync (voice burst with embedded signalling) is not taken for a data burst unless the caller says so
         return Burst(full_bits=bytes_to_bits(data), burst_type=burst_type)
 
     @staticmethod
